@@ -54,8 +54,34 @@ pub struct SessionSnap {
     pub exchanges: Vec<ExchSnap>,
 }
 
+/// The fail-safe context
+#[derive(Debug, Clone, PartialEq, Eq)]
+pub struct FailSafeSnap {
+    pub armed: bool,
+    /// Fabric index of the session which armed it (0 = PASE without fabric)
+    pub fab_idx: u8,
+    /// `NocFlags` bits
+    pub flags: u8,
+    pub timeout_secs: u16,
+    pub breadcrumb: u64,
+}
+
+/// The commissioning window / PASE state
+#[derive(Debug, Clone, PartialEq, Eq)]
+pub struct PaseSnap {
+    pub window_open: bool,
+    pub window_expiry: Option<u64>,
+    pub pake_failures: u8,
+    /// A PASE session establishment is in progress (timeout tracker armed)
+    pub establishing: bool,
+}
+
 #[derive(Debug, Clone, PartialEq, Eq)]
 pub struct Snapshot {
+    pub failsafe: FailSafeSnap,
+    pub pase: PaseSnap,
+    /// CASE resumption records: (fabric index, peer node id)
+    pub resumption: Vec<(u8, u64)>,
     pub sessions: Vec<SessionSnap>,
     pub rx_slot: SlotSnap,
     pub tx_slot: SlotSnap,
